@@ -3,7 +3,7 @@
    tombstones above a written live value are gone.  Needed to show that a commit re-establishes the hypotheses of
    commit_store_refines (CommitPreserve.v). *)
 From Coq Require Import List NArith Bool.
-From OC Require Import Base.Bytes Model.Merge Model.CfgStore Proofs.MergeProofs Proofs.PathProofs Proofs.PruneProofs
+From OC Require Import Base.Bytes Model.Merge Model.CfgStore Proofs.MergeProofs Proofs.TextPathProofs Proofs.PruneProofs
      Proofs.StoreProofs Proofs.CommitProofs.
 Import ListNotations.
 Open Scope N_scope.
